@@ -57,6 +57,7 @@ pub fn one_run(ctx: &Ctx, out: &mut Outcome, run_seed: u64) {
         allow_large: r.chance(1, 4),
         tail_ticks: r.range(0, 40),
         liveness: false,
+        flood: false,
         max_len: 400_000,
     };
     let mut mons: Vec<Box<dyn Monitor>> = vec![
